@@ -333,8 +333,9 @@ func extNDAssert(m *Machine, fr *frame, args []value) value {
 		m.events = append(m.events, "assert:"+id)
 		return nil
 	default:
+		// no decision is taken here: the outcome of a timed-out query must not shape the path
 		m.inconclusive("solver returned unknown for assertion "+id, fr)
-		m.assume(c)
+		m.events = append(m.events, "assert:"+id)
 		return nil
 	}
 }
